@@ -1,6 +1,6 @@
 (* C40: obligations over the lock-discipline table that genc40 regenerates from the source. *)
-From Coq Require Import NArith List Bool.
-From PV Require Import C40.Model C40.Generated.
+From Coq Require Import NArith List Bool String.
+From PV Require Import C40.Model C40.Generated C40.Audit.
 Import ListNotations.
 Open Scope N_scope.
 
@@ -71,4 +71,35 @@ Proof.
 Qed.
 
 Lemma readers_nonempty : font_readers <> [] /\ accesses <> [] /\ lock_extents <> [].
+Proof. repeat split; discriminate. Qed.
+
+(* ---- inventory of package-level state: every piece of it is audited ---- *)
+Definition mem (n : string) (l : list string) : bool := existsb (String.eqb n) l.
+
+Definition audited_ok (x : string * (bool * (bool * bool))) : bool :=
+  let '(n, (im, (wr, mc))) := x in
+  (im || mem n audited_all) && (negb (wr || (mc && negb im)) || mem n audited_mutable).
+
+Lemma inventory_checked : forallb audited_ok pkg_vars = true.
+Proof. vm_compute. reflexivity. Qed.
+
+Lemma mem_In n l : mem n l = true -> In n l.
+Proof.
+  unfold mem. intros H. apply existsb_exists in H as (m & Hin & Heq).
+  apply String.eqb_eq in Heq. subst. exact Hin.
+Qed.
+
+Lemma shared_state_audited : forall n im wr mc, In (n, (im, (wr, mc))) pkg_vars ->
+  (im = false -> In n audited_all) /\
+  (wr = true \/ (mc = true /\ im = false) -> In n audited_mutable).
+Proof.
+  intros n im wr mc Hin. pose proof inventory_checked as H. rewrite forallb_forall in H.
+  specialize (H _ Hin). cbn in H. apply andb_prop in H as [Ha Hm]. split.
+  - intros ->. cbn in Ha. apply mem_In. exact Ha.
+  - intros Hw. apply mem_In. apply orb_prop in Hm as [Hm|Hm]; [|exact Hm].
+    exfalso. destruct Hw as [->|[-> ->]]; cbn in Hm; [discriminate|].
+    destruct wr; cbn in Hm; discriminate.
+Qed.
+
+Lemma inventory_nonempty : pkg_vars <> [] /\ audited_mutable <> [] /\ audited_all <> [].
 Proof. repeat split; discriminate. Qed.
